@@ -99,7 +99,9 @@ def run(ctx):
             if rp[0] == 'raise':
                 ctx.report(where, 'raises ' + rp[1], info, dict(signal=sp, source=tag + ' perturbed'))
             elif rp[1] != code:
-                ctx.report(where, 'code changes under a quarter-tolerance perturbation', dict(info, pattern=pattern),
+                # one finding per source of the signal (protocol of the frame / random generator), so that a defect that makes
+                # every signal unstable is not hidden behind the few known unstable ones
+                ctx.report('Universal/' + tag.split('#')[0], 'code changes under a quarter-tolerance perturbation', dict(info, pattern=pattern),
                            dict(signal=s, perturbed=sp, code=code, perturbed_code=rp[1], source=tag))
                 break
         else:
